@@ -114,6 +114,28 @@ let run (op : string) (ty : string) (a : string array) : string res =
                         | None -> ok (if items = [] then "none" else String.concat ";" items))
       | PanicAlways -> PanicAlways
       | PanicDebug -> PanicDebug)
+  | "clone_from" -> ok (s_lut (p_lut a.(1)))   (* Clone::clone_from: the destination becomes the source *)
+  | "all_functions_rest" ->
+     (* after k calls of next (one more when k is the whole run and the variant says so - it changes nothing): the number
+        of items left, resp. the last one *)
+     let n = p_nat a.(0) and k = int_of_n (p_n a.(1)) and variant = int_of_string a.(2) in
+     (match d_all_functions n with
+      | Ok st0 ->
+         let st = ref st0 and bad = ref None in
+         let next () = (match iter_next !st with
+                        | Ok (it, st') -> st := st'; it
+                        | PanicAlways -> bad := Some PanicAlways; None
+                        | PanicDebug -> bad := Some PanicDebug; None) in
+         for _ = 1 to k + 1 - 1 do ignore (next ()) done;
+         let cnt = ref 0 and last = ref None and fin = ref false in
+         while not !fin do (match next () with Some l -> incr cnt; last := Some l | None -> fin := true) done;
+         (match !bad with Some PanicAlways -> PanicAlways | Some _ -> PanicDebug
+                        | None -> ok (match variant with
+                                      | 0 -> "count:" ^ string_of_int !cnt
+                                      | 1 -> "fold:" ^ string_of_int !cnt
+                                      | _ -> "last:" ^ (match !last with Some l -> s_lut l | None -> "none")))
+      | PanicAlways -> PanicAlways
+      | PanicDebug -> PanicDebug)
   | "all_functions_after" ->
      (* the whole run, then [extra] more calls: the number of items, then what each further call returns *)
      let n = p_nat a.(0) and extra = int_of_string a.(1) in
